@@ -88,6 +88,7 @@ def c07() -> int:
     from .enum_pooling import run as pooling_plans
 
     pooling_plans(c, "C07")
+    bisim(c, GRID + ({},), K=1 if quick else 2, H=4 if quick else 5)
     return c.finish()
 
 
